@@ -1072,4 +1072,97 @@ theorem valueSpec_perm {sds : List SlotDef} {args1 args2 : List (Name × Val)} {
     | none => rfl
     | some a => rw [(key a).2 e2] at e1; cases e1
 
+/-! ## class objects, existing instances -/
+
+def stepW (w : World) (p : Name × ClassDef) : World := defclassW w p.1 p.2
+
+theorem runW_eq (h : List (Name × ClassDef)) : runW h = h.foldl stepW World.empty := rfl
+
+theorem foldl_stepW_st : ∀ (h : List (Name × ClassDef)) (w : World),
+    (h.foldl stepW w).st = h.foldl stepDef w.st
+  | [], _ => rfl
+  | p :: h, w => by
+    simp only [List.foldl_cons]
+    rw [foldl_stepW_st h]
+    rfl
+
+/-- every superseded class object has a generation below the current one of its name -/
+def DeadOK (w : World) : Prop := ∀ d ∈ w.dead, d.gen < w.gens d.name
+
+theorem deadOK_empty : DeadOK World.empty := by
+  intro d hd; simp [World.empty] at hd
+
+theorem gens_mono (w : World) (c : Name) (d : ClassDef) (k : Name) :
+    w.gens k ≤ (defclassW w c d).gens k := by
+  simp only [defclassW]
+  by_cases h : k = c
+  · subst h; simp
+  · simp [h]
+
+theorem deadOK_step {w : World} (hw : DeadOK w) (c : Name) (d : ClassDef) :
+    DeadOK (defclassW w c d) := by
+  intro x hx
+  have hmono := gens_mono w c d x.name
+  have hold : ∀ y ∈ w.dead, y.gen < (defclassW w c d).gens y.name :=
+    fun y hy => Nat.lt_of_lt_of_le (hw y hy) (gens_mono w c d y.name)
+  simp only [defclassW] at hx
+  cases hf : find w.st c with
+  | none =>
+    simp only [hf] at hx
+    exact hold x hx
+  | some e =>
+    simp only [hf, List.mem_cons] at hx
+    rcases hx with rfl | hx
+    · simp [defclassW]
+    · exact hold x hx
+
+theorem deadInh_cons_ne (d : Dead) (ds : List Dead) (c : Name) (g : Nat)
+    (h : ¬ (d.name = c ∧ d.gen = g)) : deadInh (d :: ds) c g = deadInh ds c g := by
+  simp [deadInh, h]
+
+/-- one more form never changes what a superseded class object says -/
+theorem objInh_step_of_old {w : World} {o : Obj} (ho : o.gen < w.gens o.cls) (c : Name)
+    (d : ClassDef) : objInh (defclassW w c d) o = objInh w o := by
+  have hlt : o.gen < (defclassW w c d).gens o.cls := Nat.lt_of_lt_of_le ho (gens_mono w c d o.cls)
+  have hne' : o.gen ≠ (defclassW w c d).gens o.cls := Nat.ne_of_lt hlt
+  have hne : o.gen ≠ w.gens o.cls := Nat.ne_of_lt ho
+  unfold objInh
+  rw [if_neg hne', if_neg hne]
+  have hdead : deadInh (defclassW w c d).dead o.cls o.gen = deadInh w.dead o.cls o.gen := by
+    simp only [defclassW]
+    cases hf : find w.st c with
+    | none => rfl
+    | some e =>
+      simp only []
+      apply deadInh_cons_ne
+      rintro ⟨h1, h2⟩
+      simp only at h1 h2
+      rw [← h1] at ho
+      omega
+  rw [hdead]
+
+theorem foldl_objInh_of_old : ∀ (h : List (Name × ClassDef)) {w : World} {o : Obj},
+    o.gen < w.gens o.cls → objInh (h.foldl stepW w) o = objInh w o
+  | [], _, _, _ => rfl
+  | p :: h, w, o, ho => by
+    simp only [List.foldl_cons]
+    have hlt : o.gen < (stepW w p).gens o.cls :=
+      Nat.lt_of_lt_of_le ho (gens_mono w p.1 p.2 o.cls)
+    rw [foldl_objInh_of_old h hlt]
+    exact objInh_step_of_old ho p.1 p.2
+
+/-- at the moment a class is redefined, an instance of the class object being replaced keeps the
+    list that object had -/
+theorem objInh_at_supersession {w : World} {o : Obj} (ho : o.gen = w.gens o.cls)
+    (hf : (find w.st o.cls).isSome) (d : ClassDef) :
+    objInh (defclassW w o.cls d) o = objInh w o := by
+  have hne' : o.gen ≠ (defclassW w o.cls d).gens o.cls := by
+    simp [defclassW, ho]
+  unfold objInh
+  rw [if_neg hne', if_pos ho]
+  cases hfe : find w.st o.cls with
+  | none => simp [hfe] at hf
+  | some e =>
+    simp [defclassW, hfe, deadInh, ho, inhOf]
+
 end SlipVerif.Clos
